@@ -33,6 +33,7 @@ def PopperOk (r : Ring) : PoView → Prop
   | none => True
   | some .ldHead => True
   | some (.ldTail hl) => hl = r.head
+  | some .retNone => True
   | some (.read hl) => hl = r.head ∧ r.hcount < r.tcount
   | some (.stHead hl v) => hl = r.head ∧ r.hcount < r.tcount ∧ r.log[r.hcount]? = some v
 
@@ -42,27 +43,38 @@ the slots holding an initialised value are exactly those of the positions
 structure RingInv (r : Ring) (pu : PuView) (po : PoView) : Prop where
   capPos : 0 < r.cap
   capLt : r.cap < r.W
+  pow : ∃ j, r.mask + 1 = 2 ^ j
+  capLe : r.cap ≤ (r.mask + 1)
+  dvd : (r.mask + 1) ∣ r.W
   headEq : r.head = r.hcount % r.W
   tailEq : r.tail = r.tcount % r.W
   le1 : r.hcount ≤ r.tcount
   le2 : r.tcount ≤ r.hcount + r.cap
   logLen : r.log.length = r.tcount + pendW pu
   outsEq : r.outs = r.log.take r.hcount
-  slotsInit : ∀ k, r.hcount + pendR po ≤ k → k < r.log.length → r.slots (k % r.cap) = r.log[k]?
-  slotsFree : ∀ k, r.log.length ≤ k → k < r.hcount + pendR po + r.cap → r.slots (k % r.cap) = none
+  slotsInit : ∀ k, r.hcount + pendR po ≤ k → k < r.log.length → r.slots (k % (r.mask + 1)) = r.log[k]?
+  slotsFree : ∀ k, r.log.length ≤ k → k < r.hcount + pendR po + (r.mask + 1) → r.slots (k % (r.mask + 1)) = none
   noBad : r.bad = []
   pusher : PusherOk r pu
   popper : PopperOk r po
 
-/-- The index `x % cap` computed from the *wrapped* counter is the right one: always when the
-capacity divides the word modulus (power-of-two capacities), otherwise as long as fewer than `W`
-pushes have completed. (With `W = 2^64` the second disjunct fails after 584 years at 1 push/ns;
-see `wrap_breaks_slot_safety_witness` for what happens then.) -/
-def NoWrap (r : Ring) : Prop := r.cap ∣ r.W ∨ r.tcount < r.W
+/-- the slot index `x & mask` of a wrapped counter is the residue of the true counter modulo the slot count -/
+theorem RingInv.idx_eq {r pu po} (h : RingInv r pu po) (x : Nat) : r.idx (x % r.W) = x % (r.mask + 1) := by
+  obtain ⟨j, hj⟩ := h.pow
+  unfold Ring.idx; rw [and_mask_eq_mod hj]; exact idx_count' h.dvd
 
-theorem RingInv.init (cap W : Nat) (h0 : 0 < cap) (h1 : cap < W) :
-    RingInv (Ring.init cap W 0) none none := by
-  refine ⟨h0, h1, ?_, ?_, ?_, ?_, ?_, ?_, ?_, ?_, ?_, ?_, ?_⟩ <;> simp [Ring.init, pendW, pendR, PusherOk, PopperOk, spscInitHead_val, spscInitTail_val]
+theorem RingInv.init (cap k : Nat) (h0 : 0 < cap) (h1 : cap < 2 ^ k) :
+    RingInv (Ring.init cap (2 ^ k) 0) none none := by
+  have hp := nextPow2_isPow cap
+  have hle := le_nextPow2 cap
+  have hd := nextPow2_dvd (Nat.le_of_lt h1)
+  have hpos : 0 < nextPow2 cap := by omega
+  have hn : nextPow2 cap - 1 + 1 = nextPow2 cap := by omega
+  refine ⟨h0, h1, ?_, ?_, ?_, ?_, ?_, ?_, ?_, ?_, ?_, ?_, ?_, ?_, ?_, ?_⟩ <;>
+    simp [Ring.init, pendW, pendR, PusherOk, PopperOk, spscInitHead_val, spscInitTail_val, spscMaskDec_val, hn]
+  · exact hp
+  · exact hle
+  · exact hd
 
 /-! ### push -/
 
@@ -102,21 +114,22 @@ theorem getElem?_concat_lt {α} (l : List α) (x : α) (k : Nat) (hk : k < l.len
     (l ++ [x])[k]? = l[k]? := by
   rw [List.getElem?_append_left hk]
 
-theorem RingInv.push_write {r tl v po} (h : RingInv r (some (.write tl, v)) po) (hw : NoWrap r) :
-    RingInv (r.writeSlot (tl % r.cap) v) (some (.stTail tl, v)) po := by
+theorem RingInv.push_write {r tl v po} (h : RingInv r (some (.write tl, v)) po) :
+    RingInv (r.writeSlot (r.idx tl) v) (some (.stTail tl, v)) po := by
   obtain ⟨htl, hroom⟩ := h.pusher
   have hlen : r.log.length = r.tcount := by simpa [pendW] using h.logLen
-  have hidx : tl % r.cap = r.tcount % r.cap := by rw [htl, h.tailEq]; exact idx_count hw
+  have hidx : r.idx tl = r.tcount % (r.mask + 1) := by rw [htl, h.tailEq]; exact h.idx_eq _
+  have hcl := h.capLe
   have hpr : pendR po ≤ 1 := by unfold pendR; split <;> omega
   have hprle : r.hcount + pendR po ≤ r.tcount := by
     have := h.popper
     unfold pendR; split
     · rename_i hl v'; simp [PopperOk] at this; omega
     · have := h.le1; omega
-  have hfree : r.slots (r.tcount % r.cap) = none :=
+  have hfree : r.slots (r.tcount % (r.mask + 1)) = none :=
     h.slotsFree r.tcount (by omega) (by omega)
   refine
-    { capPos := h.capPos, capLt := h.capLt, headEq := h.headEq, tailEq := h.tailEq,
+    { capPos := h.capPos, capLt := h.capLt, pow := h.pow, capLe := h.capLe, dvd := h.dvd, headEq := h.headEq, tailEq := h.tailEq,
       le1 := h.le1, le2 := h.le2, logLen := ?_, outsEq := ?_, slotsInit := ?_, slotsFree := ?_,
       noBad := ?_, pusher := ⟨htl, hroom⟩, popper := ?_ }
   · simp [Ring.writeSlot, pendW, hlen]
@@ -146,6 +159,7 @@ theorem RingInv.push_write {r tl v po} (h : RingInv r (some (.write tl, v)) po) 
       cases p with
       | ldHead => exact id
       | ldTail hl => exact id
+      | retNone => exact id
       | read hl => exact id
       | stHead hl v' =>
         simp only [PopperOk, Ring.writeSlot]
@@ -156,7 +170,7 @@ theorem RingInv.push_stTail {r tl v po} (h : RingInv r (some (.stTail tl, v)) po
     RingInv (r.storeTail tl) none po := by
   obtain ⟨htl, hroom⟩ := h.pusher
   refine
-    { capPos := h.capPos, capLt := h.capLt, headEq := h.headEq, tailEq := ?_,
+    { capPos := h.capPos, capLt := h.capLt, pow := h.pow, capLe := h.capLe, dvd := h.dvd, headEq := h.headEq, tailEq := ?_,
       le1 := ?_, le2 := ?_, logLen := ?_, outsEq := h.outsEq, slotsInit := h.slotsInit,
       slotsFree := h.slotsFree, noBad := h.noBad, pusher := trivial, popper := ?_ }
   · simp only [Ring.storeTail, spscPushInc_val, wadd_one]; rw [htl, h.tailEq]; exact winc_count _ _
@@ -171,6 +185,7 @@ theorem RingInv.push_stTail {r tl v po} (h : RingInv r (some (.stTail tl, v)) po
       cases p with
       | ldHead => exact id
       | ldTail hl => exact id
+      | retNone => exact id
       | read hl => simp only [PopperOk, Ring.storeTail, spscPushInc_val, wadd_one]; rintro ⟨a, b⟩; exact ⟨a, by omega⟩
       | stHead hl v' => simp only [PopperOk, Ring.storeTail, spscPushInc_val, wadd_one]; rintro ⟨a, b, c⟩; exact ⟨a, by omega, c⟩
 
@@ -203,6 +218,11 @@ theorem pop_empty_iff {r pu hl} (h : RingInv r pu (some (.ldTail hl))) :
   rw [hh, h.headEq, h.tailEq]
   exact wrapped_eq_iff h.le1 (by have := h.le2; have := h.capLt; omega)
 
+theorem RingInv.pop_ldTail_none {r pu hl} (h : RingInv r pu (some (.ldTail hl))) :
+    RingInv r pu (some .retNone) :=
+  { h with slotsInit := by simpa [pendR] using h.slotsInit,
+           slotsFree := by simpa [pendR] using h.slotsFree, popper := trivial }
+
 theorem RingInv.pop_ldTail_cont {r pu hl} (h : RingInv r pu (some (.ldTail hl)))
     (hne : ¬ hl = r.tail) : RingInv r pu (some (.read hl)) := by
   have := mt (pop_empty_iff h).2 hne
@@ -211,21 +231,21 @@ theorem RingInv.pop_ldTail_cont {r pu hl} (h : RingInv r pu (some (.ldTail hl)))
                  popper := ⟨h.popper, by have := h.le1; omega⟩ }
 
 /-- what `read` finds: the slot is initialised and holds the oldest queued value -/
-theorem read_value {r pu hl} (h : RingInv r pu (some (.read hl))) (hw : NoWrap r) :
-    ∃ v, r.log[r.hcount]? = some v ∧ r.slots (hl % r.cap) = some v ∧ hl % r.cap = r.hcount % r.cap := by
+theorem read_value {r pu hl} (h : RingInv r pu (some (.read hl))) :
+    ∃ v, r.log[r.hcount]? = some v ∧ r.slots (r.idx hl) = some v ∧ r.idx hl = r.hcount % (r.mask + 1) := by
   obtain ⟨hh, hlt⟩ := h.popper
-  have hidx : hl % r.cap = r.hcount % r.cap := by
-    rw [hh, h.headEq]
-    exact idx_count (hw.elim Or.inl (fun x => Or.inr (by omega)))
+  have hidx : r.idx hl = r.hcount % (r.mask + 1) := by
+    rw [hh, h.headEq]; exact h.idx_eq _
   have hlen : r.hcount < r.log.length := by have := h.logLen; omega
   refine ⟨r.log[r.hcount], List.getElem?_eq_getElem hlen, ?_, hidx⟩
   rw [hidx, h.slotsInit r.hcount (by simp [pendR]) hlen, List.getElem?_eq_getElem hlen]
 
-theorem RingInv.pop_read {r pu hl} (h : RingInv r pu (some (.read hl))) (hw : NoWrap r) :
-    RingInv (r.readSlot (hl % r.cap)).1 pu (some (.stHead hl (r.readSlot (hl % r.cap)).2)) := by
-  obtain ⟨v, hv, hs, hidx⟩ := read_value h hw
+theorem RingInv.pop_read {r pu hl} (h : RingInv r pu (some (.read hl))) :
+    RingInv (r.readSlot (r.idx hl)).1 pu (some (.stHead hl (r.readSlot (r.idx hl)).2)) := by
+  obtain ⟨v, hv, hs, hidx⟩ := read_value h
+  have hcl := h.capLe
   obtain ⟨hh, hlt⟩ := h.popper
-  have hrs : r.readSlot (hl % r.cap) = ({ r with slots := upd r.slots (hl % r.cap) none }, v) := by
+  have hrs : r.readSlot (r.idx hl) = ({ r with slots := upd r.slots (r.idx hl) none }, v) := by
     simp [Ring.readSlot, hs]
   rw [hrs]
   have hpw : r.log.length ≤ r.hcount + r.cap := by
@@ -238,7 +258,7 @@ theorem RingInv.pop_read {r pu hl} (h : RingInv r pu (some (.read hl))) (hw : No
       obtain ⟨p, v'⟩ := q
       cases p <;> simp [pendW, PusherOk] <;> have := h.le2 <;> omega
   refine
-    { capPos := h.capPos, capLt := h.capLt, headEq := h.headEq, tailEq := h.tailEq,
+    { capPos := h.capPos, capLt := h.capLt, pow := h.pow, capLe := h.capLe, dvd := h.dvd, headEq := h.headEq, tailEq := h.tailEq,
       le1 := h.le1, le2 := h.le2, logLen := h.logLen, outsEq := h.outsEq, slotsInit := ?_,
       slotsFree := ?_, noBad := h.noBad, pusher := h.pusher, popper := ⟨hh, hlt, hv⟩ }
   · intro k hk1 hk2
@@ -247,7 +267,7 @@ theorem RingInv.pop_read {r pu hl} (h : RingInv r pu (some (.read hl))) (hw : No
     exact h.slotsInit k (by simp [pendR]; omega) hk2
   · intro k hk1 hk2
     dsimp only [pendR] at hk1 hk2 ⊢
-    by_cases hk : k = r.hcount + r.cap
+    by_cases hk : k = r.hcount + (r.mask + 1)
     · subst hk
       rw [hidx, Nat.add_mod_right, upd_same]
     · have hlen : r.hcount < r.log.length := by have := h.logLen; omega
@@ -259,7 +279,7 @@ theorem RingInv.pop_stHead {r pu hl v} (h : RingInv r pu (some (.stHead hl v))) 
   obtain ⟨hh, hlt, hv⟩ := h.popper
   have hlen : r.hcount < r.log.length := by have := h.logLen; omega
   refine
-    { capPos := h.capPos, capLt := h.capLt, headEq := ?_, tailEq := h.tailEq,
+    { capPos := h.capPos, capLt := h.capLt, pow := h.pow, capLe := h.capLe, dvd := h.dvd, headEq := ?_, tailEq := h.tailEq,
       le1 := ?_, le2 := ?_, logLen := h.logLen, outsEq := ?_, slotsInit := ?_,
       slotsFree := ?_, noBad := h.noBad, pusher := ?_, popper := trivial }
   · simp only [Ring.storeHead, spscPopInc_val, wadd_one]; rw [hh, h.headEq]; exact winc_count _ _
@@ -287,7 +307,7 @@ theorem RingInv.pop_stHead {r pu hl v} (h : RingInv r pu (some (.stHead hl v))) 
 
 /-! ### one access of push / pop, packaged -/
 
-theorem pushStep_inv {r v p po} (h : RingInv r (some (p, v)) po) (hw : NoWrap r) :
+theorem pushStep_inv {r v p po} (h : RingInv r (some (p, v)) po) :
     (∀ p', (pushStep r v p).2 = .cont p' → RingInv (pushStep r v p).1 (some (p', v)) po) ∧
     ((pushStep r v p).2 = .full → RingInv (pushStep r v p).1 none po ∧ (pushStep r v p).1 = r) ∧
     ((pushStep r v p).2 = .done → RingInv (pushStep r v p).1 none po) := by
@@ -311,7 +331,7 @@ theorem pushStep_inv {r v p po} (h : RingInv r (some (p, v)) po) (hw : NoWrap r)
       · simp [pushStep, hf] at hp
   | write tl =>
     refine ⟨fun p' hp => ?_, fun hp => ?_, fun hp => ?_⟩
-    · simp only [pushStep, PushOut.cont.injEq] at hp ⊢; subst hp; exact h.push_write hw
+    · simp only [pushStep, PushOut.cont.injEq] at hp ⊢; subst hp; exact h.push_write
     · simp [pushStep] at hp
     · simp [pushStep] at hp
   | stTail tl =>
@@ -320,31 +340,37 @@ theorem pushStep_inv {r v p po} (h : RingInv r (some (p, v)) po) (hw : NoWrap r)
     · simp [pushStep] at hp
     · simp only [pushStep]; exact h.push_stTail
 
-theorem popStep_inv {r pu p} (h : RingInv r pu (some p)) (hw : NoWrap r) :
-    (∀ p', (popStep r p).2 = .cont p' → RingInv (popStep r p).1 pu (some p')) ∧
-    ((popStep r p).2 = .empty → RingInv (popStep r p).1 pu none ∧ (popStep r p).1 = r ∧ r.hcount = r.tcount) ∧
+theorem popStep_inv {r pu p} (h : RingInv r pu (some p)) :
+    (∀ p', (popStep r p).2 = .cont p' → RingInv (popStep r p).1 pu (some p') ∧
+        (p' = .retNone → (popStep r p).1 = r ∧ r.hcount = r.tcount)) ∧
+    ((popStep r p).2 = .empty → RingInv (popStep r p).1 pu none ∧ (popStep r p).1 = r ∧ p = .retNone) ∧
     (∀ x, (popStep r p).2 = .done x → RingInv (popStep r p).1 pu none ∧ r.log[r.hcount]? = some x) := by
   cases p with
   | ldHead =>
     refine ⟨fun p' hp => ?_, fun hp => ?_, fun x hp => ?_⟩
-    · simp only [popStep, PopOut.cont.injEq] at hp ⊢; subst hp; exact h.pop_ldHead
+    · simp only [popStep, PopOut.cont.injEq] at hp ⊢; subst hp; exact ⟨h.pop_ldHead, by simp⟩
     · simp [popStep] at hp
     · simp [popStep] at hp
   | ldTail hl =>
     by_cases he : hl = r.tail
-    · refine ⟨fun p' hp => ?_, fun _ => ?_, fun x hp => ?_⟩
+    · refine ⟨fun p' hp => ?_, fun hp => ?_, fun x hp => ?_⟩
+      · simp only [popStep, he, if_true, PopOut.cont.injEq] at hp ⊢; subst hp
+        exact ⟨h.pop_ldTail_none, fun _ => ⟨trivial, (pop_empty_iff h).1 he⟩⟩
       · simp [popStep, he] at hp
-      · simp only [popStep, he, if_true]
-        exact ⟨h.abandonPop (by intro a b; simp), trivial, (pop_empty_iff h).1 he⟩
       · simp [popStep, he] at hp
     · refine ⟨fun p' hp => ?_, fun hp => ?_, fun x hp => ?_⟩
       · simp only [popStep, he, if_false, PopOut.cont.injEq] at hp ⊢; subst hp
-        exact h.pop_ldTail_cont he
+        exact ⟨h.pop_ldTail_cont he, by simp⟩
       · simp [popStep, he] at hp
       · simp [popStep, he] at hp
+  | retNone =>
+    refine ⟨fun p' hp => ?_, fun _ => ?_, fun x hp => ?_⟩
+    · simp [popStep] at hp
+    · simp only [popStep]; exact ⟨h.abandonPop (by intro a b; simp), trivial, trivial⟩
+    · simp [popStep] at hp
   | read hl =>
     refine ⟨fun p' hp => ?_, fun hp => ?_, fun x hp => ?_⟩
-    · simp only [popStep, PopOut.cont.injEq] at hp ⊢; subst hp; exact h.pop_read hw
+    · simp only [popStep, PopOut.cont.injEq] at hp ⊢; subst hp; exact ⟨h.pop_read, by simp⟩
     · simp [popStep] at hp
     · simp [popStep] at hp
   | stHead hl v =>
@@ -369,12 +395,6 @@ theorem popStep_frame (r : Ring) (p : PopPc) :
   · split <;> simp
   · split <;> simp
 
-theorem NoWrap.of_le {r r' : Ring} (hc : r'.cap = r.cap) (hW : r'.W = r.W) (ht : r.tcount ≤ r'.tcount)
-    (h : NoWrap r') : NoWrap r := by
-  unfold NoWrap at *
-  rw [hc, hW] at h
-  exact h.elim Or.inl (fun x => Or.inr (by omega))
-
 /-! ### the ring-only system -/
 
 theorem rstep_frame (s : RSys) (l : RLabel) :
@@ -396,7 +416,7 @@ theorem rstep_frame (s : RSys) (l : RLabel) :
       have := popStep_frame s.ring p
       split <;> simp_all
 
-theorem rstep_inv (s : RSys) (l : RLabel) (h : RingInv s.ring s.pu s.po) (hw : NoWrap s.ring) :
+theorem rstep_inv (s : RSys) (l : RLabel) (h : RingInv s.ring s.pu s.po) :
     RingInv (rstep s l).ring (rstep s l).pu (rstep s l).po := by
   cases l with
   | push v =>
@@ -405,7 +425,7 @@ theorem rstep_inv (s : RSys) (l : RLabel) (h : RingInv s.ring s.pu s.po) (hw : N
     · rename_i hpu; exact h.startPush v hpu
     · rename_i p v' hpu
       rw [hpu] at h
-      obtain ⟨h1, h2, h3⟩ := pushStep_inv h hw
+      obtain ⟨h1, h2, h3⟩ := pushStep_inv h
       split
       · rename_i r p' heq; have := h1 p' (by rw [heq]); rw [heq] at this; exact this
       · rename_i r o hne heq
@@ -419,9 +439,9 @@ theorem rstep_inv (s : RSys) (l : RLabel) (h : RingInv s.ring s.pu s.po) (hw : N
     · rename_i hpo; exact h.startPop hpo
     · rename_i p hpo
       rw [hpo] at h
-      obtain ⟨h1, h2, h3⟩ := popStep_inv h hw
+      obtain ⟨h1, h2, h3⟩ := popStep_inv h
       split
-      · rename_i r p' heq; have := h1 p' (by rw [heq]); rw [heq] at this; exact this
+      · rename_i r p' heq; have := (h1 p' (by rw [heq])).1; rw [heq] at this; exact this
       · rename_i r o hne heq
         cases o with
         | cont p' => exact absurd rfl (hne p')
@@ -439,18 +459,11 @@ theorem rrun_frame (s : RSys) (ls : List RLabel) :
     simp only [rrun, List.foldl_cons] at h2 ⊢
     exact ⟨h2.1.trans h1.1, h2.2.1.trans h1.2.1, Nat.le_trans h1.2.2 h2.2.2⟩
 
-theorem rrun_inv (s : RSys) (ls : List RLabel) (h : RingInv s.ring s.pu s.po)
-    (hw : NoWrap (rrun s ls).ring) :
+theorem rrun_inv (s : RSys) (ls : List RLabel) (h : RingInv s.ring s.pu s.po) :
     RingInv (rrun s ls).ring (rrun s ls).pu (rrun s ls).po := by
   induction ls generalizing s with
   | nil => exact h
-  | cons l ls ih =>
-    simp only [rrun, List.foldl_cons] at hw ⊢
-    have hf := rrun_frame (rstep s l) ls
-    have hf1 := rstep_frame s l
-    have hw1 : NoWrap (rstep s l).ring := NoWrap.of_le hf.1 hf.2.1 hf.2.2 hw
-    have hw0 : NoWrap s.ring := NoWrap.of_le hf1.1 hf1.2.1 hf1.2.2 hw1
-    exact ih (rstep s l) (rstep_inv s l h hw0) hw
+  | cons l ls ih => exact ih (rstep s l) (rstep_inv s l h)
 
 /-! ### `Drop for SpscRing` -/
 
@@ -471,16 +484,20 @@ theorem exists_in_window {cap : Nat} (a i : Nat) (hi : i < cap) :
 structure DropInv (r : Ring) (k : Nat) : Prop where
   capPos : 0 < r.cap
   capLt : r.cap < r.W
+  pow : ∃ j, r.mask + 1 = 2 ^ j
+  capLe : r.cap ≤ r.mask + 1
+  dvd : (r.mask + 1) ∣ r.W
   tailEq : r.tail = r.tcount % r.W
   le1 : k ≤ r.tcount
   le2 : r.tcount ≤ k + r.cap
   logLen : r.log.length = r.tcount
-  slotsInit : ∀ j, k ≤ j → j < r.tcount → r.slots (j % r.cap) = r.log[j]?
-  slotsFree : ∀ j, r.tcount ≤ j → j < k + r.cap → r.slots (j % r.cap) = none
+  slotsInit : ∀ j, k ≤ j → j < r.tcount → r.slots (j % (r.mask + 1)) = r.log[j]?
+  slotsFree : ∀ j, r.tcount ≤ j → j < k + (r.mask + 1) → r.slots (j % (r.mask + 1)) = none
   noBad : r.bad = []
 
 theorem DropInv.of_inv {r} (h : RingInv r none none) : DropInv r r.hcount :=
-  { capPos := h.capPos, capLt := h.capLt, tailEq := h.tailEq, le1 := h.le1, le2 := h.le2,
+  { capPos := h.capPos, capLt := h.capLt, pow := h.pow, capLe := h.capLe, dvd := h.dvd,
+    tailEq := h.tailEq, le1 := h.le1, le2 := h.le2,
     logLen := by simpa [pendW] using h.logLen,
     slotsInit := by
       have hl : r.log.length = r.tcount := by simpa [pendW] using h.logLen
@@ -490,14 +507,18 @@ theorem DropInv.of_inv {r} (h : RingInv r none none) : DropInv r r.hcount :=
       intro j a b; exact h.slotsFree j (by omega) (by simpa [pendR] using b),
     noBad := h.noBad }
 
+theorem DropInv.idx_eq {r k} (h : DropInv r k) (x : Nat) : r.idx (x % r.W) = x % (r.mask + 1) := by
+  obtain ⟨j, hj⟩ := h.pow
+  unfold Ring.idx; rw [and_mask_eq_mod hj]; exact idx_count' h.dvd
+
 theorem dropLoop_spec (n : Nat) : ∀ (r : Ring) (acc : List Val) (fuel k : Nat),
-    DropInv r k → NoWrap r → r.tcount - k = n → n ≤ fuel →
+    DropInv r k → r.tcount - k = n → n ≤ fuel →
     (dropLoop r acc fuel (k % r.W)).2 = acc ++ (r.log.drop k) ∧
     (dropLoop r acc fuel (k % r.W)).1.bad = [] ∧
-    (∀ i, i < r.cap → (dropLoop r acc fuel (k % r.W)).1.slots i = none) := by
+    (∀ i, i < r.mask + 1 → (dropLoop r acc fuel (k % r.W)).1.slots i = none) := by
   induction n with
   | zero =>
-    intro r acc fuel k h hw hn _
+    intro r acc fuel k h hn _
     have hk : k = r.tcount := by have := h.le1; omega
     have hdrop : r.log.drop k = [] := by rw [List.drop_eq_nil_iff]; have := h.logLen; omega
     have hres : dropLoop r acc fuel (k % r.W) = (r, acc) := by
@@ -509,45 +530,46 @@ theorem dropLoop_spec (n : Nat) : ∀ (r : Ring) (acc : List Val) (fuel k : Nat)
     obtain ⟨j, hj1, hj2, hj3⟩ := exists_in_window r.tcount i hi
     rw [← hj3]; exact h.slotsFree j hj1 (by omega)
   | succ n ih =>
-    intro r acc fuel k h hw hn hfuel
+    intro r acc fuel k h hn hfuel
     have hklt : k < r.tcount := by omega
+    have hcl := h.capLe
     obtain ⟨f, rfl⟩ : ∃ f, fuel = f + 1 := ⟨fuel - 1, by omega⟩
     have hne : ¬ k % r.W = r.tail := by
       rw [h.tailEq]
       exact mod_ne_window hklt (by have := h.le2; have := h.capLt; omega)
-    have hidx : (k % r.W) % r.cap = k % r.cap :=
-      idx_count (hw.elim Or.inl (fun x => Or.inr (by omega)))
+    have hidx : r.idx (k % r.W) = k % (r.mask + 1) := h.idx_eq k
     have hlen : k < r.log.length := by have := h.logLen; omega
-    have hslot : r.slots (k % r.cap) = some r.log[k] := by
+    have hslot : r.slots (k % (r.mask + 1)) = some r.log[k] := by
       rw [h.slotsInit k (Nat.le_refl _) hklt, List.getElem?_eq_getElem hlen]
-    have hrs : r.readSlot (k % r.W % r.cap) = ({ r with slots := upd r.slots (k % r.cap) none }, r.log[k]) := by
+    have hrs : r.readSlot (r.idx (k % r.W)) = ({ r with slots := upd r.slots (k % (r.mask + 1)) none }, r.log[k]) := by
       simp [Ring.readSlot, hidx, hslot]
     have hstep : dropLoop r acc (f + 1) (k % r.W) =
-        dropLoop { r with slots := upd r.slots (k % r.cap) none } (acc ++ [r.log[k]]) f ((k + 1) % r.W) := by
+        dropLoop { r with slots := upd r.slots (k % (r.mask + 1)) none } (acc ++ [r.log[k]]) f ((k + 1) % r.W) := by
       rw [dropLoop, if_neg hne, hrs]
       simp only [spscDropInc_val, wadd_one, winc_count]
-    have hinv : DropInv { r with slots := upd r.slots (k % r.cap) none } (k + 1) :=
-      { capPos := h.capPos, capLt := h.capLt, tailEq := h.tailEq, le1 := hklt,
+    have hinv : DropInv { r with slots := upd r.slots (k % (r.mask + 1)) none } (k + 1) :=
+      { capPos := h.capPos, capLt := h.capLt, pow := h.pow, capLe := h.capLe, dvd := h.dvd,
+        tailEq := h.tailEq, le1 := hklt,
         le2 := by have := h.le2; show r.tcount ≤ k + 1 + r.cap; omega,
         logLen := h.logLen,
         slotsInit := by
           intro j a b
           have a' : k + 1 ≤ j := a
           have b' : j < r.tcount := b
-          show upd r.slots (k % r.cap) none (j % r.cap) = r.log[j]?
-          rw [upd_other _ _ _ _ (mod_ne_window' (by omega : k < j) (by have := h.le2; show j - k < r.cap; omega))]
+          show upd r.slots (k % (r.mask + 1)) none (j % (r.mask + 1)) = r.log[j]?
+          rw [upd_other _ _ _ _ (mod_ne_window' (by omega : k < j) (by have := h.le2; show j - k < r.mask + 1; omega))]
           exact h.slotsInit j (by omega) b',
         slotsFree := by
           intro j a b
           have a : r.tcount ≤ j := a
-          have b : j < k + 1 + r.cap := b
-          show upd r.slots (k % r.cap) none (j % r.cap) = none
-          by_cases hj : j = k + r.cap
+          have b : j < k + 1 + (r.mask + 1) := b
+          show upd r.slots (k % (r.mask + 1)) none (j % (r.mask + 1)) = none
+          by_cases hj : j = k + (r.mask + 1)
           · subst hj; rw [Nat.add_mod_right, upd_same]
-          · rw [upd_other _ _ _ _ (mod_ne_window' (by show k < j; omega) (by show j - k < r.cap; omega))]
-            exact h.slotsFree j a (by show j < k + r.cap; omega),
+          · rw [upd_other _ _ _ _ (mod_ne_window' (by show k < j; omega) (by show j - k < r.mask + 1; omega))]
+            exact h.slotsFree j a (by show j < k + (r.mask + 1); omega),
         noBad := h.noBad }
-    have := ih { r with slots := upd r.slots (k % r.cap) none } (acc ++ [r.log[k]]) f (k + 1) hinv hw
+    have := ih { r with slots := upd r.slots (k % (r.mask + 1)) none } (acc ++ [r.log[k]]) f (k + 1) hinv
       (by show r.tcount - (k + 1) = n; omega) (by omega)
     rw [hstep]
     refine ⟨?_, this.2.1, this.2.2⟩
@@ -556,13 +578,25 @@ theorem dropLoop_spec (n : Nat) : ∀ (r : Ring) (acc : List Val) (fuel k : Nat)
     rw [List.append_assoc, List.singleton_append, ← List.drop_eq_getElem_cons hlen]
 
 /-- `Drop for SpscRing` on a quiescent ring: drops exactly the queued values (each once, oldest
-first), never touches an uninitialised slot, leaves every slot uninitialised. -/
-theorem ring_drop_spec {r : Ring} (h : RingInv r none none) (hw : NoWrap r) :
-    r.drop.2 = r.log.drop r.hcount ∧ r.drop.1.bad = [] ∧ ∀ i, i < r.cap → r.drop.1.slots i = none := by
+first), never touches an uninitialised slot, leaves every slot of the buffer uninitialised. -/
+theorem ring_drop_spec {r : Ring} (h : RingInv r none none) :
+    r.drop.2 = r.log.drop r.hcount ∧ r.drop.1.bad = [] ∧ ∀ i, i < r.mask + 1 → r.drop.1.slots i = none := by
   have hd := DropInv.of_inv h
-  have := dropLoop_spec (r.tcount - r.hcount) r [] r.W r.hcount hd hw rfl
+  have := dropLoop_spec (r.tcount - r.hcount) r [] r.W r.hcount hd rfl
     (by have := h.le2; have := h.capLt; omega)
   simp only [Ring.drop, h.headEq]
   simpa using this
+
+/-! ### the two non-atomic accesses never touch the same slot -/
+
+/-- **write/read disjointness**: whenever the pusher is about to write its slot and the popper is
+about to read (move out of) its slot, the two slots are different. -/
+theorem write_read_disjoint {r tl v hl} (h : RingInv r (some (.write tl, v)) (some (.read hl))) :
+    r.idx tl ≠ r.idx hl := by
+  obtain ⟨htl, hroom⟩ := h.pusher
+  obtain ⟨hhl, hlt⟩ := h.popper
+  have hcl := h.capLe
+  rw [htl, hhl, h.tailEq, h.headEq, h.idx_eq, h.idx_eq]
+  exact mod_ne_window' hlt (by omega)
 
 end RtcModel.Spsc
